@@ -228,7 +228,7 @@ Proof.
   - (* thematic break *) apply (mk_void false s_hr [] [10]); [reflexivity|right; split; reflexivity|constructor|apply free_nl].
   - (* code block *)
     destruct info as [i|].
-    + unfold render. cbn. destruct (safe_entity (r_tables E) ops (strip_p (is_ws (r_tables E)) i)) as [|c0 lang] eqn:Ei.
+    + unfold render. cbn. destruct (strip_p (is_ws (r_tables E)) (safe_entity (r_tables E) ops (strip_p (is_ws (r_tables E)) i))) as [|c0 lang] eqn:Ei.
       * cbn. destruct i; cbn;
           (apply (mk_elem false s_pre [] ([60] ++ s_code ++ [] ++ [62] ++ run_escape ops true raw ++ [60; 47] ++ s_code ++ [62]) [10]);
            [norm_eq|right; split; [reflexivity|left; cbn; tauto]|constructor| |apply free_nl];
@@ -238,7 +238,7 @@ Proof.
            [rewrite ?Ei; norm_eq|right; split; [reflexivity|left; cbn; tauto]|constructor| |apply free_nl];
            apply (H_elem true s_code _ (run_escape ops true raw)); [left; cbn; tauto| |apply H_text; apply esc_free];
            apply A_cons; [lit_free| |constructor];
-           apply Forall_app; split; [lit_free|apply first_word_free; rewrite <- Ei; apply ent_free]).
+           apply Forall_app; split; [lit_free|apply first_word_free; rewrite <- Ei; apply (free_incl _ _ (strip_incl _ _)); apply ent_free]).
     + apply (mk_elem false s_pre [] ([60] ++ s_code ++ [] ++ [62] ++ run_escape ops true raw ++ [60; 47] ++ s_code ++ [62]) [10]);
         [norm_eq|right; split; [reflexivity|left; cbn; tauto]|constructor| |apply free_nl].
       apply (H_elem true s_code [] (run_escape ops true raw)); [left; cbn; tauto|constructor|apply H_text; apply esc_free].
